@@ -25,7 +25,7 @@ FIXED_PROGRAMS = [
     'OPENQASM 3.0;\ninclude "stdgates.inc";\nqubit[3] q;\nqubit[2] r;\nbit[3] c;\ngate g(t) x, y { rx(t) x; cx x, y; }\ndef f(qubit[2] a) { barrier a; h a[1]; }\nfor int i in [0:1] {\n  c[i] = measure q[i];\n  barrier q[i];\n}\ng(0.5) q[0], q[2];\nf(r);\nh q;\n',
     # statements the visitor rewrites while lowering them: modifiers on gphase and on gates, folded parameters, aliases, ranges
     'OPENQASM 3.0;\ninclude "stdgates.inc";\nqubit[4] q;\nbit[2] c;\nconst int[8] n = 2;\npow(2) @ gphase(pi / 4);\ninv @ gphase(0.5);\npow(n) @ inv @ s q[0];\nlet a = q[1:3];\nrx(n * 0.25) a;\ninv @ pow(2) @ t q[n];\ncx q[0], q[3];\nh q[0:2];\nc[0] = measure q[n];\n',
-    'OPENQASM 3.0;\ninclude "stdgates.inc";\nqubit[3] q;\ngate g(t) x, y { pow(2) @ rx(t) x; inv @ s y; gphase(t); }\npow(2) @ gphase(0.25);\ninv @ g(0.5) q[0], q[1];\npow(2) @ g(0.25) q[1], q[2];\ncz q[0], q[2];\n',
+    'OPENQASM 3.0;\ninclude "stdgates.inc";\nqubit[3] q;\ngate g(t) x, y { pow(2) @ rx(t) x; inv @ s y; cx y, x; }\npow(2) @ gphase(0.25);\ninv @ g(0.5) q[0], q[1];\npow(2) @ g(0.25) q[1], q[2];\ncz q[0], q[2];\n',
     # a loop, whole-register and sliced operands, a custom gate: the source-level and the unrolled program differ a lot
     'OPENQASM 3.0;\ninclude "stdgates.inc";\nqubit[4] q;\nbit[2] c;\ngate g(t) x, y { rx(t) x; cx x, y; }\nfor int i in [0:2] {\n  h q[i];\n}\ng(0.5) q[0], q[3];\nbarrier q;\ncx q[0:2], q[2:4];\nc[0] = measure q[1];\n',
     # asymmetric use of two registers of different sizes (mirroring and renumbering are visible), a use only inside a conditional
